@@ -141,22 +141,37 @@ where
         states.push(st);
         shares.push(sh);
     }
-    // a role outside the instance
-    ts.push(Target {
-            extra: vec![inputs[1].get_encoded().unwrap(), inputs[0].get_encoded().unwrap()],
+    // roles outside the instance: one past the last, and ones that equal a valid role modulo 256 / 2^32
+    for id in [num_agg as usize, 255, 256, 257, 256 + num_agg as usize, 1usize << 32, usize::MAX] {
+        ts.push(Target {
+            extra: vec![inputs[1].get_encoded().unwrap(), inputs[0].get_encoded().unwrap(), vec![]],
             enclen: vec![],
-        fmt: format!("p3in {} 32 {} {} {} {} {}", f, num_agg, num_agg as usize, typ.input_len(), typ.proof_len() * num_proofs as usize, jr),
-        honest: vec![],
-        nominal: 64,
-        dec: {
-            let v = vdaf.clone();
-            let id = num_agg as usize;
-            Box::new(move |b: &[u8]| match Prio3InputShare::<T::Field, 32>::get_decoded_with_param(&(&v, id), b) {
-                Ok(x) => Ok((x.get_encoded().map_err(|_| ())?, x.encoded_len())),
-                Err(_) => Err(()),
-            })
-        },
-    });
+            fmt: format!("p3in {} 32 {} {} {} {} {}", f, num_agg, id, typ.input_len(), typ.proof_len() * num_proofs as usize, jr),
+            honest: vec![],
+            nominal: 64,
+            dec: {
+                let v = vdaf.clone();
+                Box::new(move |b: &[u8]| match Prio3InputShare::<T::Field, 32>::get_decoded_with_param(&(&v, id), b) {
+                    Ok(x) => Ok((x.get_encoded().map_err(|_| ())?, x.encoded_len())),
+                    Err(_) => Err(()),
+                })
+            },
+        });
+        ts.push(Target {
+            extra: vec![states[0].get_encoded().unwrap(), states[1].get_encoded().unwrap(), vec![]],
+            enclen: vec![],
+            fmt: format!("p3st {} 32 {} {} {} {}", f, num_agg, id, typ.output_len(), jr),
+            honest: vec![],
+            nominal: 64,
+            dec: {
+                let v = vdaf.clone();
+                Box::new(move |b: &[u8]| match Prio3VerifyState::<T::Field, 32>::get_decoded_with_param(&(&v, id), b) {
+                    Ok(x) => Ok((x.get_encoded().map_err(|_| ())?, x.encoded_len())),
+                    Err(_) => Err(()),
+                })
+            },
+        });
+    }
     let vlen = typ.verifier_len() * num_proofs as usize;
     ts.push(target::<Prio3VerifierShare<T::Field, 32>, _>(
         format!("p3vs {} 32 {} {}", f, vlen, (jr > 0) as u8),
